@@ -203,6 +203,8 @@ pub(crate) fn delete_artifact_locked(
     // Get chunks and decrement refs
     if let Some(chunks) = get_pointers(&tensor, "_chunks") {
         for chunk_key in chunks {
+            #[cfg(feature = "neumann_verif")]
+            tensor_store::verif_hooks::yield_point("blob.delete.meta_read_to_decr");
             decrement_chunk_refs(store, &chunk_key)?;
         }
     }
@@ -232,6 +234,8 @@ pub(crate) fn delete_artifact_locked(
     }
 
     // Delete metadata
+    #[cfg(feature = "neumann_verif")]
+    tensor_store::verif_hooks::yield_point("blob.delete.decr_to_meta_delete");
     store.delete(&meta_key)?;
 
     Ok(())
